@@ -551,13 +551,29 @@ def c12_vectors(pid, tier, rng, tmp):
     return [mc], vecs
 
 
+def c12_with_prev(pid, tier, rng, tmp):
+    mcs, vecs = c12_vectors(pid, tier, rng, tmp)
+    # the advertiser has transmitted before the other router's RA arrives, with its dynamic content in an earlier state
+    # (equal to the other router's options, or to those of an unrelated vector): the comparison is with the current RA
+    plain = [v for v in vecs if not v["in"].get("selfwire")]
+    extra = []
+    for j, v in enumerate(plain[::3]):
+        w = json.loads(json.dumps(v))
+        src = v["in"]["theirs"] if j % 2 == 0 else plain[(7 * j + 11) % len(plain)]["in"]["own"]
+        w["in"]["prev"] = {"opts": src.get("opts", [])}
+        w["id"] = v["id"] + "-prev"
+        extra.append(w)
+    return mcs, vecs + extra
+
+
 def c12(pid, tier, replay):
-    return vec_check(pid, tier, replay, c12_vectors,
+    return vec_check(pid, tier, replay, c12_with_prev,
                      lambda v: v["in"]["own"] != v["in"]["theirs"],
                      "vectors = for every header field and option kind the full {absent, v1, v2, ...} x {absent, v1, v2, ...} "
                      "cross of own and received values (both orders), pairwise products across option kinds, random larger RAs, "
                      "each with the received RA as distinct structs and after a wire round trip, plus own RAs compared with their "
-                     "own round trip; every vector goes through verifyRAs and through Advertiser.handle (counters, log, hook); "
+                     "own round trip; every vector goes through verifyRAs and through Advertiser.handle (counters, log, hook), a third of them "
+                     "again after the advertiser has transmitted an RA whose options were in an earlier state; "
                      "non-trivial = own and received differ",
                      ["the 'own' RA is produced by a config.Interface whose plugin list is a harness plugin appending the scripted options",
                       "route prefixes use byte-aligned lengths (the pinned ndp decoder drops a trailing partial byte)",
